@@ -754,6 +754,63 @@ pub fn run(out: &mut Out, tier: &str, seed: u64, prop: &str) {
                 out.case(format!("xev\tL {}\t{}", a.dump, toks.join("\t")), bits);
             }
         }
+        "C05" => {
+            use std::str::FromStr;
+            for it in &items {
+                out.evaluations += 1;
+                let m = &it.tree;
+                let spell = spell_table(m);
+                // (1) DNF and text against the model
+                let dnf = match catch_unwind(AssertUnwindSafe(|| m.to_dnf())) { Ok(d) => d, Err(_) => { out.oracle_fail("C05", "panic in to_dnf (debug-profile overflow? see K3)", serde_json::json!({"term": it.term.line()})); continue } };
+                let dl = if dnf.is_empty() { "empty".to_string() } else { dnf.iter().map(|c| c.iter().map(crate::mparse::expr_line).collect::<Vec<_>>().join(" & ")).collect::<Vec<_>>().join(" | ") };
+                let text = m.try_to_string();
+                // one value may be interned under several spellings inside one diagram (K1); the model's
+                // spelling table is a function of the value, so such diagrams are compared semantically only
+                if spell != "AMBIGUOUS" {
+                    out.case(format!("dnf\tL {}\t{}", it.dump, spell), dl);
+                    out.case(format!("show\tL {}\t{}", it.dump, spell), match &text { Some(t) => hex(t), None => "none".into() });
+                } else { out.stat("c05.spelling_ambiguous_semantic_only"); }
+                let Some(text) = text else { continue };
+                out.nontrivial(text.clone());
+                let input = serde_json::json!({"term": it.term.line(), "text": text});
+                // (2) all renderings agree
+                if m.contents().map(|c| c.to_string()).as_deref() != Some(&text) || serde_json::to_string(&m.contents().unwrap()).ok() != serde_json::to_string(&text).ok() {
+                    out.oracle_fail("C05", "Display / try_to_string / contents() / serde serialization disagree", input.clone());
+                }
+                // (3) the text parses back to the same marker
+                let deprecated = it.dump.split(' ').any(|t| matches!(t, "s:2" | "s:4" | "s:6" | "s:7" | "s:11" | "s:13") || ["in:2:", "in:4:", "in:6:", "in:7:", "in:11:", "in:13:", "ct:2:", "ct:4:", "ct:6:", "ct:7:", "ct:11:", "ct:13:"].iter().any(|p| t.starts_with(p)));
+                match catch_unwind(AssertUnwindSafe(|| MarkerTree::from_str(&text))) {
+                    Ok(Ok(back)) => {
+                        let same = back == *m || ((m.is_false() || deprecated) && crate::req::marker_equiv(&back, m, 11));
+                        if !same { out.oracle_fail("C05", "the displayed text parses to a different marker", input.clone()); }
+                        if m.is_false() || deprecated { out.stat("c05.carve_out_equivalence") } else { out.stat("c05.strict_equality") }
+                        let de: Result<MarkerTree, _> = serde_json::from_str(&serde_json::to_string(&text).unwrap());
+                        if de.ok().map(|d| d == back) != Some(true) { out.oracle_fail("C05", "deserialization differs from FromStr", input.clone()); }
+                    }
+                    Ok(Err(e)) => out.oracle_fail("C05", &format!("the displayed text does not parse: {}", e.message), input.clone()),
+                    Err(_) => { out.oracle_fail("C05", "panic while parsing the displayed text", input.clone()); return }
+                }
+                // (4) the DNF clauses denote the same function
+                let envs = region_envs(&mut rng, &[&it.term], 8);
+                for e in &envs {
+                    let want = e.eval(m);
+                    let got = dnf.iter().any(|c| c.iter().all(|x| e.eval(&MarkerTree::expression(x.clone()))));
+                    if !m.is_true() && got != want {
+                        out.oracle_fail("C05", &format!("to_dnf() evaluates to {got}, the marker to {want}"), serde_json::json!({"term": it.term.line(), "text": text, "env": e.line()}));
+                        break;
+                    }
+                }
+                // (5) top_level_extra (C11's clause): `extra == e` only if e is active in every satisfying assignment
+                if let Some(pep508_rs::MarkerExpression::Extra { name: pep508_rs::MarkerValueExtra::Extra(x), .. }) = m.top_level_extra() {
+                    for e in &envs {
+                        if e.eval(m) && !e.extras().contains(&x) {
+                            out.oracle_fail("C11", "top_level_extra() names an extra that is not active in a satisfying assignment", serde_json::json!({"term": it.term.line(), "extra": x.to_string(), "env": e.line()}));
+                        }
+                    }
+                    out.stat("c05.top_level_extra_some");
+                }
+            }
+        }
         _ => panic!("unknown property {prop}"),
     }
     if let Some(l) = out.cases.last() {
@@ -806,4 +863,36 @@ impl ValidOr for Term {
         }
         self
     }
+}
+
+/// the spelling of every version that occurs in the diagram, as interned in this process
+pub fn spell_table(t: &MarkerTree) -> String {
+    let mut pairs: std::collections::BTreeMap<String, String> = Default::default();
+    fn go(t: &MarkerTree, pairs: &mut std::collections::BTreeMap<String, String>) {
+        match t.kind() {
+            MarkerTreeKind::Version(m) => {
+                for (r, c) in m.edges() {
+                    for (lo, hi) in r.iter() {
+                        for b in [lo, hi] {
+                            if let Bound::Included(v) | Bound::Excluded(v) = b {
+                                let spelled: Vec<String> = v.release().iter().map(|s| s.to_string()).collect();
+                                if let Some(prev) = pairs.insert(canon_version(v), spelled.join(".")) {
+                                    if prev != spelled.join(".") { pairs.insert("AMBIGUOUS".into(), "1".into()); }
+                                }
+                            }
+                        }
+                    }
+                    go(&c, pairs);
+                }
+            }
+            MarkerTreeKind::String(m) => { for (_, c) in m.children() { go(&c, pairs); } }
+            MarkerTreeKind::In(m) => { go(&m.edge(true), pairs); go(&m.edge(false), pairs); }
+            MarkerTreeKind::Contains(m) => { go(&m.edge(true), pairs); go(&m.edge(false), pairs); }
+            MarkerTreeKind::Extra(m) => { go(&m.edge(true), pairs); go(&m.edge(false), pairs); }
+            _ => {}
+        }
+    }
+    go(t, &mut pairs);
+    if pairs.contains_key("AMBIGUOUS") { return "AMBIGUOUS".into(); }
+    if pairs.is_empty() { "-".into() } else { pairs.iter().map(|(k, v)| format!("{k}={v}")).collect::<Vec<_>>().join(",") }
 }
